@@ -353,6 +353,11 @@ func c12Headers(rc *RC, sutReceives bool) {
 		{"version-1.1", false, false, mk(el, "stream", goodNS, "jabber:client", "1.1", "sid1")},
 		{"version-2.0", false, false, mk(el, "stream", goodNS, "jabber:client", "2.0", "sid1")},
 		{"version-garbage", false, false, mk(el, "stream", goodNS, "jabber:client", "abc", "sid1")},
+		{"version-257.0", false, false, mk(el, "stream", goodNS, "jabber:client", "257.0", "sid1")},
+		{"version-1.256", false, false, mk(el, "stream", goodNS, "jabber:client", "1.256", "sid1")},
+		{"version-huge", false, false, mk(el, "stream", goodNS, "jabber:client", "4294967297.18446744073709551616", "sid1")},
+		{"version-1.0.0", false, false, mk(el, "stream", goodNS, "jabber:client", "1.0.0", "sid1")},
+		{"version-signed", false, false, mk(el, "stream", goodNS, "jabber:client", "+1.0", "sid1")},
 		{"id-missing", sutReceives, false, mk(el, "stream", goodNS, "jabber:client", "1.0", "")},
 		{"content-ns-unsupported", ws, false, mk(el, "stream", goodNS, "jabber:foo", "1.0", "sid1")},
 		{"id-only-as-prefix-declaration", sutReceives, false, func(from, to string) string {
